@@ -352,6 +352,11 @@ pub fn run(ctx: &Ctx) {
         for ml in 0..=300usize {
             fg.push(ForgeCase { hash: h, levels: vec![(8, 5)], qsel: 1, tag: 11, msg_len: ml });
         }
+        // ... and around multiples of 2^16 - 1 and 2^16 (16-bit length registers, chunked hashing)
+        for ml in [65_534usize, 65_535, 65_536, 65_537, 131_069, 131_070, 131_071, 131_072, 196_605, 196_606, 196_607, 196_608, 262_140, 262_143, 262_144] {
+            fg.push(ForgeCase { hash: h, levels: vec![(8, 5)], qsel: 1, tag: 12, msg_len: ml });
+            fg.push(ForgeCase { hash: h, levels: vec![(4, 5), (8, 5)], qsel: 2, tag: 13, msg_len: ml });
+        }
     }
     ctx.enumerate("wellformed_forgeries", fg.len() as u64, true, |i| fg[i as usize].clone(), |c: &ForgeCase| {
         let t = wire::forge(c.hash, &c.levels, c.qsel, c.tag, c.msg_len);
